@@ -41,12 +41,6 @@ func (e *Exec) bencodeMarshal(v Value) []*Term {
 }
 
 func init() {
-	reg("github.com/anacrolix/torrent/bencode.Marshal", func(e *Exec, c *frame, fn *ssa.Function, a []Value) Value {
-		return Tuple{e.bytesToSlice(e.bencodeMarshal(a[0])), Iface{}}
-	})
-	reg("github.com/anacrolix/torrent/bencode.MustMarshal", func(e *Exec, c *frame, fn *ssa.Function, a []Value) Value {
-		return e.bytesToSlice(e.bencodeMarshal(a[0]))
-	})
 	// ed25519.Verify: any outcome (over-approximation; signatures are not the subject where this is used)
 	reg("crypto/ed25519.Verify", func(e *Exec, c *frame, fn *ssa.Function, a []Value) Value {
 		e.stubUsed("crypto/ed25519.Verify: returns an arbitrary boolean (over-approximation)")
